@@ -7,6 +7,7 @@ import (
 	"strconv"
 	"strings"
 	"sync"
+	"time"
 
 	"github.com/ARM-software/golang-utils/utils/commonerrors"
 	"github.com/ARM-software/golang-utils/utils/zz_verif/verif"
@@ -28,6 +29,10 @@ var vChild struct {
 	writes []vChildWrite
 	exit   int // 0..255, or -1 for death by signal
 	ctx    context.Context
+	// cancelWhileRunning: the child writes its output and then hangs; the caller's
+	// context is cancelled while it does, which kills it.
+	cancelWhileRunning bool
+	cancel             context.CancelFunc
 }
 
 // VerifOverrideCmdRun replaces (*os/exec.Cmd).Run under the engine.
@@ -43,6 +48,11 @@ func VerifOverrideCmdRun(c *exec.Cmd) error {
 		if dst != nil {
 			_, _ = dst.Write([]byte(w.text))
 		}
+	}
+	if vChild.cancelWhileRunning {
+		// os/exec kills the child when the context ends and reports how it died
+		vChild.cancel()
+		return errors.New("signal: killed")
 	}
 	switch {
 	case vChild.exit == 0:
@@ -64,7 +74,9 @@ func vShellScript() string {
 		}
 		sb.WriteString("; ")
 	}
-	if vChild.exit < 0 {
+	if vChild.cancelWhileRunning {
+		sb.WriteString("exec sleep 30")
+	} else if vChild.exit < 0 {
 		sb.WriteString("kill -9 $$")
 	} else {
 		sb.WriteString("exit " + strconv.Itoa(vChild.exit))
@@ -271,6 +283,63 @@ func VerifC18_Output() {
 			gotOut = append(gotOut, e.text)
 		}
 	}
+	verif.Assert("stdout_lines", sameLines(gotOut, vExpectedLines(false)))
+	verif.Assert("stderr_lines", sameLines(gotErr, vExpectedLines(true)))
+}
+
+// VerifC18_CancelledWhileRunning: the context is cancelled while the child is
+// still running (after it has written its output): Execute returns an error,
+// the child's lines were all logged, and exactly one end message -- the
+// failure message -- is logged, also once the monitoring goroutine has done
+// its part.
+func VerifC18_CancelledWhileRunning() {
+	// the monitoring goroutine reacts to the cancellation concurrently with Execute's own
+	// clean-up: every interleaving with one preemption is explored
+	verif.ExploreSchedules(1)
+	// (a fixed child: what it writes is the other harnesses' subject)
+	vChild.writes = []vChildWrite{{text: "L0\n"}, {toErr: true, text: "L1\n"}}
+	vChild.exit = 0
+	vChild.cancelWhileRunning = true
+	ctx, cancel := context.WithCancel(context.Background())
+	defer cancel()
+	vChild.ctx, vChild.cancel = ctx, cancel
+	rec := &seqLoggers{}
+	p, err := New(ctx, rec, vMsgStart, vMsgSuccess, vMsgFailure, "/bin/sh", "-c", vShellScript())
+	verif.Assert("constructor", err == nil && p != nil)
+	if !verif.Symbolic() {
+		// natively the cancellation comes from outside, once the child has had time to write
+		go func() {
+			time.Sleep(300 * time.Millisecond)
+			cancel()
+		}()
+	}
+	err = p.Execute()
+	verif.Advance(200 * time.Millisecond) // let the monitoring goroutine finish what the cancellation started
+	verif.Assert("cancelled_run_reports_an_error", err != nil)
+	verif.Assert("not_running_afterwards", !p.IsOn())
+
+	rec.mu.Lock()
+	seq := append([]vLogEntry(nil), rec.seq...)
+	rec.mu.Unlock()
+	verif.Assert("start_message_first", len(seq) >= 2 && !seq[0].toErr && seq[0].text == vMsgStart)
+	successes, failures := 0, 0
+	var gotOut, gotErr []string
+	for _, e := range seq[1:] {
+		switch {
+		case e.text == vMsgSuccess:
+			successes++
+		case e.text == vMsgFailure:
+			failures++
+		case len(e.text) >= 8 && e.text[:8] == "Stopping":
+			// the monitoring goroutine's own announcement, when it gets that far
+		case e.toErr:
+			gotErr = append(gotErr, e.text)
+		default:
+			gotOut = append(gotOut, e.text)
+		}
+	}
+	verif.Assert("exactly_one_end_message", successes+failures == 1)
+	verif.Assert("it_is_the_failure_message", failures == 1)
 	verif.Assert("stdout_lines", sameLines(gotOut, vExpectedLines(false)))
 	verif.Assert("stderr_lines", sameLines(gotErr, vExpectedLines(true)))
 }
